@@ -163,7 +163,10 @@ class CParser:
         self._push_scope()
 
     def _lex_on_rbrace_func(self) -> None:
-        self._pop_scope()
+        # An unmatched '}' at file scope is a syntax error; leave it to the
+        # parser to report it (with a location) when it reaches the token.
+        if len(self._scope_stack) > 1:
+            self._pop_scope()
 
     def _lex_type_lookup_func(self, name: str) -> bool:
         """Looks up types that were previously defined with typedef.
